@@ -5,7 +5,7 @@ package main
 var c38Classes = []string{"chunk-flip", "chunk-trunc", "chunk-extend", "chunk-swap", "chunk-delete", "chunk-recompress",
 	"slotman-flip", "slotman-rewrite", "slotman-delete", "slotman-swap",
 	"manifest-flip", "manifest-rewrite", "manifest-order", "manifest-delete",
-	"marker-flip", "marker-rewrite-size", "marker-rewrite-digest", "marker-delete", "corrupt-flag", "id-mismatch"}
+	"marker-flip", "marker-rewrite-size", "marker-rewrite-digest", "marker-delete", "corrupt-flag", "id-mismatch", "slotman-traversal-key"}
 
 var c38Muts = []string{"valid", "unknown-field", "nested-unknown", "dup-key", "space", "number-float", "number-exp", "leading-zero",
 	"reorder", "trailing", "null", "escape", "upper-hex", "truncate", "oversize", "byte-flip", "byte-flip", "byte-flip", "empty", "array"}
@@ -26,6 +26,10 @@ func genC38(g *Gen) {
 		for k := 0; k < 6; k++ {
 			g.Count("mut:chunk-bitsweep")
 			g.Op("mut", "chunk-bitsweep %d 0 %d", g.R.Intn(1<<20), g.R.Intn(1<<20))
+		}
+		for k := 0; k < 4; k++ {
+			g.Count("mut:chunk-bitsweep-empty")
+			g.Op("mut", "chunk-bitsweep-empty %d 0 %d", g.R.Intn(1<<20), g.R.Intn(1<<20))
 		}
 		g.Op("verify", "")
 		for j := 0; j < 120; j++ {
